@@ -12,7 +12,8 @@ ID = "C13"
 RULE = (
     "generated small bounded problems with and without objectives x generated histories of up to 12 public SchedulingSolver calls "
     "(initialize, export_to_smt2, solve, find_another_solution, find_another_solution_for_variable, "
-    "get_parameters_description) on ONE solver instance, both optimisers and all priority modes. Model: feasibility, optimum and "
+    "get_parameters_description) on ONE solver instance, both optimisers and all priority modes, plus a stratum solve -> find_another* whose "
+    "objective is an indicator with declared bounds (the incremental optimiser's early exit). Model: feasibility, optimum and "
     "the set of valid timings from fresh independent solvers + the reference; the exclusions accumulated by find_another calls. "
     "Invariants: a feasible problem never turns into False by repetition; every returned schedule is reference-valid; a repeated "
     "solve() returns the same optimum; find_another after an optimisation returns a valid schedule or fails only if none "
